@@ -5,7 +5,7 @@ CORE = "acquire-core-libs/src/"
 RT = "acquire-video-runtime/src/"
 DRV = "acquire-driver-common/src/"
 
-ENGINE_MAIN = {"rc": "engine/rc_main.cpp", "fz": "engine/fz_main.cpp", "rp": "engine/rp_main.cpp"}
+ENGINE_MAIN = {"rc": "engine/rc_main.cpp", "fz": "engine/fz_main.cpp", "rp": "engine/rp_main.cpp", "en": "engine/enum_main.cpp"}
 
 
 def _link_flags(engine):
@@ -215,7 +215,8 @@ HARNESSES = {
     "chan": {
         "props": ["C01", "C02", "C03"],
         "sources": _chan_sources,
-        "engines": ["rc", "rp"],
+        "engines": ["rc", "rp", "en"],
+        "extras": {"C01": ["chan_exhaustive"], "C02": ["chan_exhaustive"], "C03": ["chan_exhaustive"]},
         "quick": {"rc_cases": 100000, "rc_size": 60},
         "thorough": {"rc_cases": 2000000, "rc_size": 120},
     },
